@@ -1,6 +1,7 @@
 //! Per-property generators and oracles on top of simnet.
 pub mod gens;
 pub mod streams;
+pub mod conn;
 
 use vf_common::{Ctx, Report};
 
@@ -10,6 +11,10 @@ pub fn dispatch(ctx: &Ctx, rep: &mut Report) -> bool {
         "C03" => streams::c03(ctx, rep),
         "C04" => streams::c04(ctx, rep),
         "C05" => streams::c05(ctx, rep),
+        "C06" => conn::c06(ctx, rep),
+        "C07" => conn::c07(ctx, rep),
+        "C11" => conn::c11(ctx, rep),
+        "C15" => conn::c15(ctx, rep),
         _ => return false,
     }
     true
